@@ -11,8 +11,58 @@ heap ``H`` — the way a notebook reuses ``df`` and ``kws`` across cells.  Flags
 import numpy as np
 import pandas as pd
 
-OPS = {}
 HEAP = {}
+RANDOPS = {}  # base name -> (fn(H, A), group, flags): templates whose ARGUMENTS are drawn from a seeded generator A
+
+
+class SiblingRandom(__import__("random").Random):
+    """Generator of a random-argument template 'base~n': cluster n // 16, member n % 16.  Every draw advances the cluster's stream;
+    for member > 0 about one draw in seven is replaced by a draw from the member's own stream.  The members of one cluster therefore
+    build arguments that agree in most parts and differ in a few - the pairs a cache with an incomplete key confuses."""
+
+    def __init__(self, cluster, member):
+        R = __import__("random").Random
+        self._c = R(cluster)
+        self._m = R(1000003 * (member + 1) + cluster)
+        self._p = 0.0 if member == 0 else 0.15
+        super().__init__(0)
+
+    def random(self):
+        a = self._c.random()
+        return self._m.random() if self._m.random() < self._p else a
+
+    def getrandbits(self, k):
+        a = self._c.getrandbits(k)
+        return self._m.getrandbits(k) if self._m.random() < self._p else a
+
+
+class _Ops(dict):
+    """name -> Op.  'base~<n>' names a random-argument template: RANDOPS[base] with A = random.Random(n); it is materialised on
+    first use, so that any process (batch, replay, minimiser) can execute it from the name alone."""
+
+    def __missing__(self, name):
+        base, sep, sd = name.rpartition("~")
+        if sep and base in RANDOPS and sd.isdigit():
+            import random as _random
+
+            fn, group, flags = RANDOPS[base]
+
+            def call(H, fn=fn, sd=int(sd)):
+                return fn(H, SiblingRandom(sd // 16, sd % 16))
+
+            call.__name__ = name
+            call._grid_fn = fn
+            o = Op(name, call, group, **flags)
+            self[name] = o
+            try:
+                USES[name] = set(_static_heap_names(fn))
+            except NameError:
+                pass
+            return o
+        raise KeyError(name)
+
+
+OPS = _Ops()
 
 
 class Op:
@@ -32,6 +82,25 @@ def op(group, **kw):
         return fn
 
     return deco
+
+
+def randop(group, **kw):
+    def deco(fn):
+        assert fn.__name__ not in RANDOPS and fn.__name__ not in OPS, fn.__name__
+        RANDOPS[fn.__name__] = (fn, group, kw)
+        return fn
+
+    return deco
+
+
+def _static_heap_names(fn):
+    import inspect
+    import re
+
+    try:
+        return re.findall(r'H\["([A-Za-z0-9_]+)"\]', inspect.getsource(fn))
+    except (OSError, TypeError):
+        return []
 
 
 def heap(fn):
@@ -4348,6 +4417,491 @@ def _g_nb_forms(H, which):
 grid("neighbors", "g_nb_forms", _g_nb_forms, dict(which=[(x, x) for x in (
     "isdist1_cb", "numbers_ref_cb", "nnn_list", "ham_empty_pos", "ham_neg_pos", "ham_range", "ham_bad_pos", "lev_empty", "lev_default_alphabet",
     "ham_iter_alphabet", "ensure_index", "ensure_frame", "ensure_scalar", "ensure_gen", "ensure_cat", "pc_n_index")]), cap=30)
+
+
+# every TCR metric class on every shape of table (paired, one chain only, no V genes, only V genes): most combinations are "calls that raise"
+def _g_metric_shapes(H, cls, table, method):
+    m = getattr(tm, cls)()
+    if table == "no_v":
+        X = H["df_tcr"][["CDR3A", "CDR3B"]]
+    elif table == "only_v":
+        X = H["df_tcr"][["TRAV", "TRBV"]]
+    elif table == "beta_j":
+        X = H["df_tcr"][["TRBV", "CDR3B", "TRBJ"]]
+    else:
+        X = H[table]
+    if method == "pdist":
+        return m.calc_pdist_vector(X)
+    return m.calc_cdist_matrix(X, X)
+
+
+grid("metric", "g_metric_shapes", _g_metric_shapes,
+     dict(cls=[(x, x) for x in ("Cdr3Levenshtein", "AlphaCdr3Levenshtein", "BetaCdr3Levenshtein", "CdrLevenshtein", "AlphaCdrLevenshtein", "BetaCdrLevenshtein")],
+          table=[("paired", "df_tcr"), ("beta", "df_beta"), ("alpha", "df_alpha_only"), ("no_v", "no_v"), ("only_v", "only_v"), ("beta_j", "beta_j"),
+                 ("unknown_v", "df_vgenes_unknown")],
+          method=[("pdist", "pdist"), ("cdist", "cdist")]), cap=50)
+
+
+# =============================================================================================
+# random-argument templates: the ARGUMENTS come from a seeded generator A (one fixed value per 'base~<n>' name), drawn from
+# small spaces on purpose, so that two templates of one base often share part of what a careless cache key would look at - the
+# number of elements, the total length, the first element, the column names - and differ in the rest.  Caller-owned argument
+# objects are registered with H.arg(...) so that they are snapshotted like heap objects.  Each batch seed draws its own set.
+# =============================================================================================
+_R_FAMILIES = ["CASSLGQAYEQYF", "CASSPGTDTQYF", "CAWSVGYEQYF", "CSARDRGNTIYF"]
+_R_AA = "ACDEFGHIKLMNPQRSTVWY"
+_R_V = ["TRBV2*01", "TRBV6-9*01", "TRBV7-2*01", "TRBV19*01"]
+_R_VA = ["TRAV1-1*01", "TRAV5*01", "TRAV12-1*01"]
+
+
+def _r_seq(A, base=None, edits=None):
+    s = base if base is not None else A.choice(_R_FAMILIES)
+    for _ in range(A.choice([0, 0, 1, 1, 2]) if edits is None else edits):
+        i = A.randrange(1, max(2, len(s) - 1))
+        k = A.choice(["sub", "sub", "ins", "del"])
+        if k == "sub":
+            s = s[:i] + A.choice(_R_AA) + s[i + 1:]
+        elif k == "ins":
+            s = s[:i] + A.choice(_R_AA) + s[i:]
+        elif len(s) > 4:
+            s = s[:i] + s[i + 1:]
+    return s
+
+
+def _r_seqs(A, n=None, eqlen=False, short=False):
+    n = n or A.choice([4, 5, 5, 6, 8])
+    if short:
+        return ["".join(A.choice("ACD") for _ in range(A.choice([3, 4, 4, 5]))) for _ in range(n)]
+    fam = A.sample(_R_FAMILIES, 1 if eqlen else A.choice([1, 1, 2]))
+    out = []
+    for _ in range(n):
+        b = A.choice(fam)
+        if eqlen:
+            s = b
+            for _ in range(A.choice([0, 1, 2])):
+                i = A.randrange(1, len(s) - 1)
+                s = s[:i] + A.choice(_R_AA) + s[i + 1:]
+            out.append(s)
+        else:
+            out.append(_r_seq(A, b))
+    if A.random() < 0.4:
+        out[A.randrange(n)] = out[A.randrange(n)]
+    return out
+
+
+def _r_container(A, seqs):
+    k = A.choice(["list", "list", "array", "tuple", "objarr"])
+    if k == "array":
+        return np.array(seqs)
+    if k == "tuple":
+        return tuple(seqs)
+    if k == "objarr":
+        return np.array(seqs, dtype=object)
+    return list(seqs)
+
+
+def _r_counts(A):
+    n = A.choice([3, 4, 5, 6])
+    return [A.choice([0, 1, 1, 2, 3, 5, 8, 13]) for _ in range(n)]
+
+
+def _r_table(A, n=None):
+    n = n or A.choice([4, 5, 6])
+    epi = A.sample(["GILGFVFTL", "NLVPMVATV", "CLAMP"], 2)
+    return pd.DataFrame({
+        "TRAV": [A.choice(_R_VA) for _ in range(n)], "CDR3A": [_r_seq(A, "CAVKASGSRLT", A.choice([0, 1])) for _ in range(n)], "TRAJ": ["TRAJ1*01"] * n,
+        "TRBV": [A.choice(_R_V) for _ in range(n)], "CDR3B": [_r_seq(A) for _ in range(n)], "TRBJ": ["TRBJ1-1*01"] * n,
+        "Epitope": [A.choice(epi) for _ in range(n)], "MHCA": ["HLA-A*02"] * n, "MHCB": ["B2M"] * n, "clone_count": [A.choice([1, 1, 2, 5]) for _ in range(n)]})
+
+
+def _r_stats_table(A):
+    n = A.choice([5, 6, 8])
+    return pd.DataFrame({"a": [A.choice("xyz") for _ in range(n)], "b": [A.choice("uv") for _ in range(n)],
+                         "group": [A.choice(["g1", "g2"]) for _ in range(n)], "n": [A.choice([1, 2, 3]) for _ in range(n)]})
+
+
+def _r_mode(A):
+    return A.choice([None, None, "hamming"])
+
+
+@randop("symdel", post=sorted_list)
+def r_symdel(H, A):
+    seqs = H.arg("seqs", _r_container(A, _r_seqs(A)))
+    return prs.symdel(seqs, max_edits=A.choice([1, 1, 2]), custom_distance=_r_mode(A))
+
+
+@randop("symdel", post=sorted_list)
+def r_symdel_two(H, A):
+    seqs = H.arg("seqs", _r_container(A, _r_seqs(A)))
+    seqs2 = H.arg("seqs2", _r_container(A, _r_seqs(A, n=A.choice([2, 3, 5]))))
+    fn = A.choice([prs.symdel, prs.nearest_neighbor])
+    return fn(seqs, max_edits=A.choice([1, 2]), custom_distance=_r_mode(A), seqs2=seqs2)
+
+
+@randop("hash_based", post=sorted_list)
+def r_hash_based(H, A):
+    seqs = H.arg("seqs", _r_container(A, _r_seqs(A)))
+    return prs.hash_based(seqs, max_edits=1, custom_distance=_r_mode(A))
+
+
+@randop("kdtree")
+def r_kdtree(H, A):
+    seqs = H.arg("seqs", _r_container(A, _r_seqs(A)))
+    mr = A.choice([None, None, 1, 2])
+    r = prs.kdtree(seqs, max_edits=A.choice([1, 2]), custom_distance=_r_mode(A), compression=A.choice([1, 1, 3, 8]), max_returns=mr)
+    return sorted(r) if mr is None else sorted((i, d) for i, _, d in r)
+
+
+@randop("kdtree", post=sorted_list)
+def r_kdtree_cb(H, A):
+    seqs = H.arg("seqs", _r_container(A, _r_seqs(A)))
+    return prs.kdtree(seqs, max_edits=2, custom_distance=A.choice([cb_lev2, cb_half]), max_custom_distance=A.choice([2, 4, float("inf")]))
+
+
+@randop("kdtree", pool=True, post=sorted_list)
+def r_kdtree_pool(H, A):
+    seqs = H.arg("seqs", _r_container(A, _r_seqs(A, n=A.choice([5, 6, 8]))))
+    return prs.kdtree(seqs, max_edits=A.choice([1, 2]), custom_distance=_r_mode(A), n_cpu=A.choice([2, 3]))
+
+
+@randop("db", post=sorted_list)
+def r_symdeldb(H, A):
+    ref = H.arg("ref", _r_container(A, _r_seqs(A)))
+    db = prs.SymdelDB(ref, A.choice([1, 2]))
+    q1 = H.arg("q1", _r_seqs(A, n=3))
+    q2 = H.arg("q2", _r_seqs(A, n=3))
+    m1, m2 = _r_mode(A), _r_mode(A)
+    return [sorted(db.lookup(q1, custom_distance=m1)), sorted(db.lookup(q2, custom_distance=m2)), sorted(db.lookup(q1, custom_distance=m2))]
+
+
+@randop("db", post=sorted_list)
+def r_lookupdb(H, A):
+    ref = H.arg("ref", _r_container(A, _r_seqs(A)))
+    db = prs.LookupDB(ref)
+    q1 = H.arg("q1", _r_seqs(A, n=2))
+    q2 = H.arg("q2", _r_seqs(A, n=2))
+    m1, m2 = _r_mode(A), _r_mode(A)
+    return [sorted(db.lookup(q1, custom_distance=m1)), sorted(db.lookup(q2, custom_distance=m2)), sorted(db.lookup(q1, custom_distance=m2))]
+
+
+@randop("db", post=sorted_list)
+def r_heap_db_lookup(H, A):
+    q = H.arg("q", ["".join(A.choice("ACDK") for _ in range(A.choice([3, 4, 4, 5]))) for _ in range(A.choice([2, 3]))])
+    db = H[A.choice(["symdel_db", "lookup_db"])]
+    return db.lookup(q, custom_distance=_r_mode(A))
+
+
+@randop("pdist")
+def r_pdist(H, A):
+    seqs = H.arg("seqs", _r_container(A, _r_seqs(A)))
+    return prs.pdist(seqs, dtype=A.choice([np.uint8, np.int64, float]))
+
+
+@randop("pdist")
+def r_cdist(H, A):
+    a = H.arg("a", _r_container(A, _r_seqs(A, n=A.choice([2, 3, 4]))))
+    b = H.arg("b", _r_container(A, _r_seqs(A, n=A.choice([2, 3, 4]))))
+    return prs.cdist(a, b)
+
+
+@randop("pcDelta")
+def r_pcdelta(H, A):
+    seqs = H.arg("seqs", _r_container(A, _r_seqs(A, n=A.choice([5, 6, 8]))))
+    kw = A.choice([{}, {"bins": 0}, {"bins": H["bins_arr"]}, {"normalize": False}, {"pseudocount": 0.5}])
+    return prs.pcDelta(seqs, **kw)
+
+
+@randop("pcDelta")
+def r_pcdelta_two(H, A):
+    a = H.arg("a", _r_seqs(A))
+    b = H.arg("b", _r_seqs(A))
+    return prs.pcDelta(a, b, bins=H["bins_arr"])
+
+
+@randop("pcDelta", rand=True)
+def r_pcdelta_maxseqs(H, A):
+    seqs = H.arg("seqs", _r_container(A, _r_seqs(A, n=8)))
+    return prs.pcDelta(seqs, maxseqs=A.choice([3, 5, 8, 20]), bins=H["bins_arr"])
+
+
+@randop("pcDelta")
+def r_pcdelta_table(H, A):
+    df = H.arg("df", _r_table(A))
+    return prs.pcDelta(df, bins=H["bins_arr"], metric=A.choice([None, H["metric_beta"], H["metric_cdr3"]]))
+
+
+@randop("pcDelta")
+def r_pcdelta_grouped(H, A):
+    df = H.arg("df", _r_table(A, n=8))
+    fn = A.choice(["grouped", "cross"])
+    if fn == "grouped":
+        return prs.pcDelta_grouped(df, "Epitope", "CDR3B", bins=H["bins_arr"])
+    return prs.pcDelta_grouped_cross(df, "Epitope", "CDR3B", bins=H["bins_arr"])
+
+
+@randop("downsample", rand=True)
+def r_downsample(H, A):
+    k = A.choice(["seqs", "seqs", "table", "series"])
+    if k == "table":
+        x = H.arg("x", _r_table(A))
+    elif k == "series":
+        x = H.arg("x", pd.Series(_r_seqs(A), index=[A.choice([0, 3, 7]) + 2 * i for i in range(5)][: 5]) if False else pd.Series(_r_seqs(A, n=5), index=[10, 12, 14, 16, 18]))
+    else:
+        x = H.arg("x", _r_container(A, _r_seqs(A)))
+    return prs.downsample(x, A.choice([None, 0, 2, 3, 100]))
+
+
+@randop("hclust")
+def r_hclust(H, A):
+    seqs = H.arg("seqs", _r_seqs(A, n=A.choice([4, 5, 6])))
+    kw = A.choice([{}, {"cluster_kws": {"t": 2, "criterion": "distance"}}, {"linkage_kws": {"method": "single"}}])
+    return prs.hierarchical_clustering(seqs, **kw)
+
+
+@randop("hclust")
+def r_hclust_table(H, A):
+    df = H.arg("df", _r_table(A))
+    return prs.hierarchical_clustering(df, metric=A.choice([None, H["metric_cdr3"], H["metric_beta"]]))
+
+
+@randop("metric")
+def r_metric_lev(H, A):
+    a = H.arg("a", _r_container(A, _r_seqs(A, n=A.choice([3, 4, 5]))))
+    b = H.arg("b", _r_container(A, _r_seqs(A, n=A.choice([2, 3]))))
+    from pyrepseq.metric import Levenshtein, WeightedLevenshtein
+
+    m = A.choice([H["metric_lev"], H["metric_wlev"], Levenshtein(), WeightedLevenshtein(A.choice([1, 2]), A.choice([1, 2]), A.choice([1, 3]))])
+    return [m.calc_pdist_vector(a), m.calc_cdist_matrix(a, b)]
+
+
+@randop("metric")
+def r_metric_tcr(H, A):
+    a = H.arg("a", _r_table(A))
+    b = H.arg("b", _r_table(A, n=3))
+    k = A.choice(["cdr3", "beta", "cdrall", "alphacdr", "new_ab", "new_cdr", "new_ins", "new_betacdr", "new_alphacdr", "new_alphacdr3"])
+    shape = A.choice(["paired", "paired", "beta", "alpha"])
+    if shape == "beta":
+        a, b = H.arg("a", a[["TRBV", "CDR3B", "TRBJ"]].copy()), H.arg("b", b[["TRBV", "CDR3B", "TRBJ"]].copy())
+    elif shape == "alpha":
+        a, b = H.arg("a", a[["TRAV", "CDR3A"]].copy()), H.arg("b", b[["TRAV", "CDR3A"]].copy())
+    if k == "new_ab":
+        m = tm.Cdr3Levenshtein(alpha_weight=A.choice([1, 2]), beta_weight=A.choice([1, 3]))
+    elif k == "new_cdr":
+        m = tm.CdrLevenshtein(cdr3_weight=A.choice([1, 2, 4]), cdr1_weight=A.choice([1, 2]))
+    elif k == "new_ins":
+        m = tm.BetaCdr3Levenshtein(insertion_weight=A.choice([1, 2]), substitution_weight=A.choice([1, 2]))
+    elif k == "new_betacdr":
+        m = tm.BetaCdrLevenshtein(cdr3_weight=A.choice([1, 3]))
+    elif k == "new_alphacdr":
+        m = tm.AlphaCdrLevenshtein(cdr2_weight=A.choice([1, 2]))
+    elif k == "new_alphacdr3":
+        m = tm.AlphaCdr3Levenshtein()
+    else:
+        m = H["metric_" + k]
+    if A.random() < 0.5:
+        return m.calc_pdist_vector(a)
+    return m.calc_cdist_matrix(a, b)
+
+
+@randop("pc")
+def r_pc(H, A):
+    x = H.arg("x", _r_container(A, _r_seqs(A, short=True, n=A.choice([4, 6, 8]))))
+    return [prs.pc(x), prs.pc(x, x)] if A.random() < 0.5 else [prs.pc(x)]
+
+
+@randop("pc")
+def r_pc_n(H, A):
+    c = H.arg("c", A.choice([list, np.array, pd.Series])(_r_counts(A)))
+    return [prs.pc_n(c), prs.varpc_n(np.asarray(c))]
+
+
+@randop("pc")
+def r_pc_table(H, A):
+    d = H.arg("d", _r_stats_table(A))
+    k = A.choice(["pc", "joint", "cond", "grouped", "grouped_cross", "stdpc"])
+    if k == "pc":
+        return prs.pc(d[["a", "b"]])
+    if k == "joint":
+        return prs.pc_joint(d, ["a", "b"])
+    if k == "cond":
+        return prs.pc_conditional(d, "group", A.choice(["a", "b"]))
+    if k == "grouped":
+        return prs.pc_grouped_cross(d, "group", A.choice(["a", "b"]))
+    if k == "grouped_cross":
+        return prs.pc_grouped_cross(d, A.choice(["group", "b"]), "a")
+    return prs.stdpc_joint(d, ["a", "b"])
+
+
+@randop("entropy")
+def r_renyi(H, A):
+    d = H.arg("d", _r_stats_table(A))
+    k = A.choice(["plain", "by", "std", "base"])
+    if k == "plain":
+        return prs.renyi2_entropy(d, A.choice(["a", ["a", "b"]]))
+    if k == "by":
+        return prs.renyi2_entropy(d, "a", by="group")
+    if k == "std":
+        return prs.stdrenyi2_entropy(d, ["a", "b"])
+    return prs.renyi2_entropy(d, "a", base=A.choice([2, 10]))
+
+
+@randop("chao")
+def r_chao(H, A):
+    c = H.arg("c", np.array(_r_counts(A) + [1, 1, 2]))
+    return [prs.chao1(c), prs.chao2(c, A.choice([2, 5])) if hasattr(prs, "chao2") else None, prs.var_chao1(c)]
+
+
+@randop("sets")
+def r_sets(H, A):
+    a = H.arg("a", _r_container(A, _r_seqs(A, short=True)))
+    b = H.arg("b", _r_container(A, _r_seqs(A, short=True)))
+    return [prs.overlap(a, b), prs.jaccard_index(a, b)]
+
+
+@randop("subsample", rand=True)
+def r_subsample(H, A):
+    c = H.arg("c", A.choice([list, np.array])(_r_counts(A) + [2]))
+    tot = int(np.sum(c))
+    return prs.subsample(c, A.choice([0, 1, tot // 2, tot]))
+
+
+@randop("powerlaw", rand=True)
+def r_powerlaw_sample(H, A):
+    return prs.powerlaw_sample(size=A.choice([1, 5, 40]), xmin=A.choice([1, 2, 5]), alpha=A.choice([1.5, 2.0, 3.0]))
+
+
+@randop("powerlaw")
+def r_powerlaw_mle(H, A):
+    c = H.arg("c", np.array([A.choice([1, 1, 1, 2, 2, 3, 5, 8, 20, 100]) for _ in range(A.choice([8, 12, 30]))]))
+    return prs.powerlaw_mle_alpha(c, cmin=A.choice([1, 1, 2]), method=A.choice(["simple", "continuitycorrection", "exact"]))
+
+
+@randop("neighbors")
+def r_neighbors(H, A):
+    s = _r_seq(A, A.choice(["CADK", "CAAA", "ACD"]), A.choice([0, 1]))
+    k = A.choice(["ham", "lev", "nnn", "isdist1", "nndist"])
+    if k == "ham":
+        return sorted(prs.hamming_neighbors(s, alphabet=A.choice(["AC", "ACD"])))
+    if k == "lev":
+        return sorted(prs.levenshtein_neighbors(s, alphabet=A.choice(["AC", "ACD"])))
+    if k == "nnn":
+        return sorted(prs.next_nearest_neighbors(s, cb_hamming_nb, maxdistance=A.choice([1, 2])))
+    ref = H.arg("ref", set(_r_seqs(A, short=True, n=6)) | {"CAAA", "CADK"})
+    if k == "isdist1":
+        return prs.isdist1(s, ref)
+    return prs.nndist_hamming(s, ref, maxdist=A.choice([1, 2, 3]))
+
+
+@randop("neighbors")
+def r_neighbor_pairs(H, A):
+    seqs = H.arg("seqs", _r_container(A, _r_seqs(A, short=True, n=A.choice([5, 7]))))
+    k = A.choice(["pairs", "pairs_index", "numbers", "numbers_ref"])
+    if k == "pairs":
+        return sorted(prs.find_neighbor_pairs(list(seqs)))
+    if k == "pairs_index":
+        return sorted(prs.find_neighbor_pairs_index(list(seqs)))
+    if k == "numbers":
+        return prs.calculate_neighbor_numbers(list(seqs))
+    return prs.calculate_neighbor_numbers(list(seqs), reference=set(_r_seqs(A, short=True, n=6)))
+
+
+@randop("graph", rand=True)
+def r_graph(H, A):
+    n = A.choice([5, 6, 8])
+    edges = sorted(set((A.randrange(n), A.randrange(n)) for _ in range(A.choice([3, 5, 8]))))
+    t = H.arg("t", np.array([(i, j, 1) for i, j in edges if i != j] or [(0, 1, 1)]))
+    nodes = H.arg("nodes", ["s%d" % i for i in range(n)])
+    return prs.graph_clustering(t, nodes, clustering=A.choice(["cc", "cc", "leiden", "multilevel"]))
+
+
+@randop("valid")
+def r_valid(H, A):
+    s = A.choice([_r_seq(A), _r_seq(A).lower(), "C" + _r_seq(A)[1:-1] + "W", "", "CASSX", None])
+    return [prs.isvalidcdr3(s) if s is not None and s != "" else None, prs.isvalidaa(s) if s is not None else None]
+
+
+@randop("standardize")
+def r_standardize(H, A):
+    n = A.choice([2, 3, 4])
+    d = H.arg("d", pd.DataFrame({"TRBV": [A.choice(["TRBV7-2", "TRBV7-2*01", "trbv19", "TRBV99"]) for _ in range(n)],
+                                 "CDR3B": [A.choice([_r_seq(A), _r_seq(A)[1:-1], "casslgf"]) for _ in range(n)],
+                                 "TRBJ": [A.choice(["TRBJ2-7", "TRBJ1-1*01", None]) for _ in range(n)],
+                                 "Epitope": [A.choice(["GILGFVFTL", "gilgfvftl", None]) for _ in range(n)]}))
+    return prs.standardize_dataframe(d, suppress_warnings=True, tcr_precision=A.choice(["gene", "allele"]),
+                                     strict_cdr3_standardization=A.choice([False, True]))
+
+
+@randop("multimerge")
+def r_multimerge(H, A):
+    n = A.choice([2, 3])
+    dfs = H.arg("dfs", [pd.DataFrame({"key": A.sample(list("abcde"), 3), "v": [A.randrange(9) for _ in range(3)]}) for _ in range(n)])
+    return prs.multimerge(dfs, "key", suffixes=list("LRZ")[:n], how=A.choice(["inner", "outer"]))
+
+
+@randop("colors", rand=True)
+def r_colors(H, A):
+    n = A.choice([3, 9, 12, 25])
+    labels = H.arg("labels", [A.choice(["e%d" % i for i in range(n)]) for _ in range(n + 4)])
+    if A.random() < 0.5:
+        return pp.labels_to_colors_hls(labels, min_count=A.choice([None, 2]))
+    return pp.labels_to_colors_tableau(labels, min_count=A.choice([None, 2]))
+
+
+@randop("rankfreq")
+def r_rankfreq(H, A):
+    import matplotlib.pyplot as plt
+
+    c = H.arg("c", np.array(_r_counts(A) + [1, 2, 30]))
+    fig, ax = plt.subplots()
+    pp.rankfrequency(c, ax=ax, normalize_x=A.choice([True, False]), normalize_y=A.choice([True, False]), log_x=A.choice([True, False]))
+    return fig
+
+
+@randop("logos", slow=True)
+def r_seqlogos(H, A):
+    seqs = H.arg("seqs", _r_seqs(A, eqlen=True, n=A.choice([3, 5])))
+    return pp.seqlogos(seqs)
+
+
+@randop("density", rand=True)
+def r_density(H, A):
+    import matplotlib.pyplot as plt
+
+    n = A.choice([10, 30])
+    x = H.arg("x", np.array([A.gauss(0, 1) for _ in range(n)]))
+    y = H.arg("y", np.array([A.gauss(0, 1) for _ in range(n)]))
+    fig, ax = plt.subplots()
+    pp.density_scatter(x, y, ax=ax, bins=A.choice([4, 6, [5, 4]]), sort=A.choice([True, False]))
+    return fig
+
+
+@randop("clustermap", rand=True, slow=True)
+def r_clustermap(H, A):
+    n = 8
+    df = H.arg("df", pd.DataFrame({"cdr3a": [_r_seq(A, "CAVKASGSRLT", A.choice([0, 1, 2])) for _ in range(n)], "cdr3b": _r_seqs(A, n=n),
+                                   "epitope": [A.choice(["E1", "E2"]) for _ in range(n)], "donor": [A.choice(["d1", "d2", "d3"]) for _ in range(n)]}))
+    kw = A.choice([{}, {"meta_columns": ["epitope"]}, {"alpha_column": None}, {"cluster_kws": {"t": 3, "criterion": "distance"}}])
+    return pp.similarity_clustermap(df, **kw)
+
+
+@randop("tcrdist_nn", io=True)
+def r_tcrdist(H, A):
+    df = H.arg("df", _r_table(A)[["TRBV", "CDR3B"]])
+    return prs.nearest_neighbor_tcrdist(df, max_edits=A.choice([1, 2]))
+
+
+@randop("util")
+def r_util(H, A):
+    x = A.choice([_r_seqs(A), pd.Series(_r_seqs(A)), tuple(_r_seqs(A)), np.array(_r_counts(A))])
+    x = H.arg("x", x)
+    return prs.ensure_numpy(x)
+
+
+@randop("background", io=True)
+def r_background(H, A):
+    back, bins = prs.load_pcDelta_background()
+    seqs = H.arg("seqs", _r_seqs(A, n=6))
+    return [prs.pcDelta(seqs, bins=bins), back.shape]
 
 
 USES = _template_uses()
